@@ -95,7 +95,7 @@ class Gateway:
 
     def emit(self, report):
         lat = self.latencies.pop(0) if self.latencies else self.latency
-        self.reports.append(list(report))
+        self.reports.append([round(self.loop.time() + lat, 6), list(report)])
         self.pending.append((self.loop.time() + lat, bytes(report)))
 
     def fire(self, kind, n):
